@@ -115,7 +115,8 @@ for d in dirs:
                 hit, sigs = cid, s
                 break
             notes.append('%s: exit %d' % (cid, rc))
-        r = {'id': name, 'status': 'DETECTED' if hit else 'MISSED', 'by': hit, 'signatures': sigs, 'notes': notes, 'secs': round(time.time() - t0, 1)}
+        exp_miss = meta.get('expected') == 'not-detected'
+        r = {'id': name, 'status': ('DETECTED' if hit else 'MISSED') if not exp_miss else ('MISSED (expected, see meta.json)' if not hit else 'DETECTED (unexpected)'), 'by': hit, 'signatures': sigs, 'notes': notes, 'secs': round(time.time() - t0, 1)}
     else:
         alarms = {}
         # the repository's own tests must pass with the change (it is meant to be behaviour-preserving)
@@ -135,7 +136,7 @@ for d in dirs:
     json.dump(results, open(OUT, 'w'), indent=1)
 restore()
 json.dump(results, open(OUT, 'w'), indent=1)
-bad = [r['id'] for r in results if r['status'] not in ('DETECTED', 'SILENT')]
+bad = [r['id'] for r in results if r['status'] not in ('DETECTED', 'SILENT', 'MISSED (expected, see meta.json)')]
 print('total', len(results), 'not as expected:', bad)
 sh(['git', '-C', '/repo', 'worktree', 'remove', '--force', REPO])
 shutil.rmtree(ROOT, ignore_errors=True)
